@@ -34,6 +34,16 @@ def gen_value(rnd, depth=3):
     if depth > 0 and rnd.random() < 0.35:
         k = rnd.random()
         n = rnd.randint(0, 3)
+        if rnd.random() < 0.12 and n >= 2:
+            # the SAME list / dict object at several places of one value (a column list used twice): an ordinary value, no cycle
+            shared = gen_value(rnd, depth - 1)
+            if not isinstance(shared, (list, dict)):
+                shared = [shared]
+            if k < 0.4:
+                return [shared] * n
+            if k < 0.7:
+                return (shared, {"again": shared})
+            return {"first": shared, "second": shared, "third": [shared]}
         if k < 0.4:
             return [gen_value(rnd, depth - 1) for _ in range(n)]
         if k < 0.7:
